@@ -18,6 +18,9 @@ type c31Case struct {
 	History []uiLine `json:"history"`
 }
 
+// c31Lenient is set by c31Expect when the line may also be refused (error shown, cursor unchanged).
+var c31Lenient bool
+
 // c31Expect computes the expected cursor after line from (cursor, listing).
 // ok=false: the command must fail / leave the cursor unchanged.
 func c31Expect(s *uix.Session, line string, cur int, listing []string) (int, bool, bool) {
@@ -28,11 +31,22 @@ func c31Expect(s *uix.Session, line string, cur int, listing []string) (int, boo
 			return 0, false
 		}
 		var v int
+		if padded := strings.TrimLeft(f[i], "0"); len(f[i]) > 1 && f[i][0] == '0' && strings.Trim(f[i], "0123456789") == "" {
+			// a decimal number written with leading zeros: it is the decimal number (a command may
+			// also refuse the notation with an error; c31Lenient tells the caller)
+			if padded == "" {
+				padded = "0"
+			}
+			fmt.Sscanf(padded, "%d", &v)
+			c31Lenient = true
+			return v, true
+		}
 		if _, err := fmt.Sscanf(f[i], "%d", &v); err != nil || v < 0 || fmt.Sprint(v) != f[i] {
 			return 0, false
 		}
 		return v, true
 	}
+	c31Lenient = false
 	switch f[0] {
 	case "d", "down":
 		v, ok := num(1)
@@ -123,6 +137,9 @@ func c31Replay(c c31Case) (*uix.Session, *eng.Fail) {
 			continue
 		}
 		got := s.ListView().Cursor.Value()
+		if c31Lenient && got == cur && (strings.Contains(res.Out, "error:") || strings.Contains(res.Out, "No line matching")) {
+			continue // refused with an error, cursor unchanged: allowed for this notation
+		}
 		if got != exp {
 			cls := "lands-on-wrong-line"
 			if !ok {
@@ -144,7 +161,7 @@ func c31Replay(c c31Case) (*uix.Session, *eng.Fail) {
 func init() {
 	checks["C31"] = eng.Check{
 		Hist:        true,
-		Rule:        "explicit-state BFS to closure over (code order, cursor) on the 3-block, the loop-with-gap, the one-instruction and the 2-1-2 programs (thorough also: a 4-block program and a 5-block program in two segments) from 4 roots (initial, after an instruction move, after a block move, after both); menu in every state: down/up N and goto N for N in {0,1,2,3,Len-2,Len-1,Len,Len+1,2^31}, entry, find P for 28 patterns P (single words, several words, POSIX regex syntax in the first, a later or every word, alternations, anchors, invalid regexes in the first or a later word, patterns matching nothing); model cursor computed independently (entry = header line of the entry instruction's block + 1 + its current index; find = first matching line after the cursor, cyclically, excluding the cursor line); a command that cannot be performed must show an error and leave the cursor unchanged. The long walk on one session interleaves the menu with moves and enters rejected and accepted patterns twice in a row. Non-trivial = command that moves the cursor.",
+		Rule:        "explicit-state BFS to closure over (code order, cursor) on the 3-block, the loop-with-gap, the one-instruction and the 2-1-2 programs (thorough also: a 4-block program and a 5-block program in two segments) from 4 roots (initial, after an instruction move, after a block move, after both); menu in every state: down/up N and goto N for N in {0,1,2,3,Len-2,Len-1,Len,Len+1,2^31} and for decimal numbers written with leading zeros (010, 007, 08, 0012: the decimal value, or refused), entry, find P for 28 patterns P (single words, several words, POSIX regex syntax in the first, a later or every word, alternations, anchors, invalid regexes in the first or a later word, patterns matching nothing); model cursor computed independently (entry = header line of the entry instruction's block + 1 + its current index; find = first matching line after the cursor, cyclically, excluding the cursor line); a command that cannot be performed must show an error and leave the cursor unchanged. The long walk on one session interleaves the menu with moves and enters rejected and accepted patterns twice in a row. Non-trivial = command that moves the cursor.",
 		Assumptions: []string{"the expected match set of a find pattern is computed with the standard library's POSIX regex engine (substring search for patterns without metacharacters)", "find lines with leading, trailing or doubled spaces are not judged"},
 		Run: func(r *eng.Run) {
 			for _, pn := range deepNames(r, []string{"three-blocks", "loop-with-gap", "one-instruction", "sym-blocks", "synthetic-long"}) {
@@ -161,7 +178,7 @@ func init() {
 					}
 					menu = append(menu, fmt.Sprintf("d %d", v), fmt.Sprintf("u %d", v), fmt.Sprintf("g %d", v))
 				}
-				menu = append(menu, "entry", "f addi", "f Block", "f sw", "f jal", "f ecall", "f zzz", "f ^$", "f x3", "f 0x1", "f nop",
+				menu = append(menu, "entry", "g 010", "g 007", "g 08", "d 010", "u 010", "d 03", "g 0012", "g 00", "f addi", "f Block", "f sw", "f jal", "f ecall", "f zzz", "f ^$", "f x3", "f 0x1", "f nop",
 					// several words, and regex syntax in the first / a later / every word
 					"f addi x1", "f x1, x0", "f Block 2", "f addi x[12]", "f x[0-9], x0", "f a.di x1", "f ^ +sw", "f jal|sw", "f (addi|jal) x",
 					"f addi x9|zzz", "f 13 0[0-9] ", "f \\| 13", "f [", "f addi (", "f x1 x[", "f zzz q*", "f k+ addi")
